@@ -81,14 +81,14 @@ func litTerm(dt, lex string, tag rdf.LiteralTag) *term {
 var nilTerm = &term{wire: "-", v: nil, wf: false}
 
 type universe struct {
-	iris, bnodes, lits  []*term // well-formed
-	badLits, badBNodes  []*term // outside the quantifier (correspondence only)
-	graphs              []*term // graph names (nilTerm = default graph)
-	byWire              map[string]*term
-	bnWire              map[rdf.BlankNode]string
-	subjects, objects   []*term
-	preds               []*term
-	allWF               []*term
+	iris, bnodes, lits []*term // well-formed
+	badLits, badBNodes []*term // outside the quantifier (correspondence only)
+	graphs             []*term // graph names (nilTerm = default graph)
+	byWire             map[string]*term
+	bnWire             map[rdf.BlankNode]string
+	subjects, objects  []*term
+	preds              []*term
+	allWF              []*term
 }
 
 func newUniverse() *universe {
@@ -121,11 +121,11 @@ func newUniverse() *universe {
 		litTerm("http://e/a", "x", nil), // datatype equal to an IRI of the universe
 	}
 	u.badLits = []*term{
-		litTerm(langString, "lang=\"en\"\nx", nil),                           // collides with "x"@en in the hashed concatenation
-		litTerm(xsdString, "x", rdf.LanguageLiteralTag{Language: "en"}),     // tag on a plain datatype
-		litTerm(xsdString, "lang=\"en\"\nx", nil),                            // (well-formed twin of the previous one; same key)
-		litTerm("http://e/d\nlang=\"en\"", "x", nil),                         // newline inside the datatype IRI
-		litTerm("http://e/d", "lang=\"en\"\nx", nil),                         // … and its twin
+		litTerm(langString, "lang=\"en\"\nx", nil),                      // collides with "x"@en in the hashed concatenation
+		litTerm(xsdString, "x", rdf.LanguageLiteralTag{Language: "en"}), // tag on a plain datatype
+		litTerm(xsdString, "lang=\"en\"\nx", nil),                       // (well-formed twin of the previous one; same key)
+		litTerm("http://e/d\nlang=\"en\"", "x", nil),                    // newline inside the datatype IRI
+		litTerm("http://e/d", "lang=\"en\"\nx", nil),                    // … and its twin
 		litTerm(langString, "x", rdf.DirectionalLanguageLiteralTag{Language: "en", BaseDirection: "ltr"}),
 		litTerm(langString, "x", rdf.LanguageLiteralTag{Language: "en\"; dir=\"ltr"}), // %q keeps these apart
 	}
@@ -1165,6 +1165,46 @@ func main() {
 	}
 	known := vh.KnownKeys(fs, "C19")
 	var items []item
+	modelOff := false // exhaustive depth-4 part: oracle only
+
+	// flush: run the queued lines through the Lean driver and compare (bounded memory)
+	flush := func() {
+		if *nomodel || len(items) == 0 {
+			items = items[:0]
+			return
+		}
+		lines := make([]string, len(items))
+		for i, it := range items {
+			lines[i] = it.line
+		}
+		res, err := vh.Driver{Path: *driver}.RunParallel(lines)
+		if err != nil {
+			fmt.Fprintln(os.Stderr, err)
+			os.Exit(2)
+		}
+		for i, it := range items {
+			rep.Compared++
+			if res[i] == it.goR {
+				continue
+			}
+			// shrink the disagreement against the model when it is a history
+			c := vh.Case{Kind: "disagreement", Op: it.line, Go: it.goR, Model: res[i], Detail: it.kind}
+			if ops, err := u.parseLine(it.line); err == nil && rep.Failures() < 20 {
+				d := vh.Driver{Path: *driver}
+				small := shrink(ops, func(cand []op) bool {
+					r, err := d.Run([]string{lineOf(cand)})
+					return err == nil && r[0] != strings.Join(u.runGo(cand, func(int) bool { return false }), "|")
+				})
+				if r, err := d.Run([]string{lineOf(small)}); err == nil {
+					if gr := strings.Join(u.runGo(small, func(int) bool { return false }), "|"); gr != r[0] {
+						c.Op, c.Go, c.Model = lineOf(small), gr, r[0]
+					}
+				}
+			}
+			rep.Add(c)
+		}
+		items = items[:0]
+	}
 
 	// one history: run on the implementation, judge with the oracle, queue for the model
 	eval := func(kind string, ops []op) {
@@ -1225,7 +1265,12 @@ func main() {
 			}
 			rep.Add(vh.Case{Kind: "violation", Op: lineOf(small), Go: strings.Join(u.runGo(small, func(int) bool { return false }), "|"), Detail: sv.violation})
 		}
-		items = append(items, item{line: line, goR: strings.Join(outs, "|"), kind: kind})
+		if !modelOff {
+			items = append(items, item{line: line, goR: strings.Join(outs, "|"), kind: kind})
+			if len(items) >= 200000 {
+				flush()
+			}
+		}
 	}
 
 	runLines := func(path string, oracleOnly bool) {
@@ -1255,9 +1300,9 @@ func main() {
 		if *hints != "" {
 			runLines(*hints, true)
 		}
-		n := 50000 * *scale
+		n := 150000 * *scale
 		if *tier == "thorough" {
-			n = 1500000 * *scale
+			n = 5000000 * *scale
 		}
 		// hand-picked seeds first
 		for _, l := range corpus {
@@ -1277,15 +1322,19 @@ func main() {
 		}
 		g.matcherProbes(&items)
 		if *tier == "thorough" {
-			g.exhaustive(eval)
+			g.exhaustive(eval, 3, "compared with the reference set and with the model")
+			flush()
+			modelOff = true
+			g.exhaustive(eval, 4, "compared with the reference set")
+			modelOff = false
 		}
 	}
 
 	if *nomodel {
 		if rep.Cases == nil {
-		rep.Cases = []vh.Case{}
-	}
-	if err := rep.Write(*out); err != nil {
+			rep.Cases = []vh.Case{}
+		}
+		if err := rep.Write(*out); err != nil {
 			fmt.Fprintln(os.Stderr, err)
 			os.Exit(2)
 		}
@@ -1295,36 +1344,7 @@ func main() {
 		}
 		return
 	}
-	lines := make([]string, len(items))
-	for i, it := range items {
-		lines[i] = it.line
-	}
-	res, err := vh.Driver{Path: *driver}.RunParallel(lines)
-	if err != nil {
-		fmt.Fprintln(os.Stderr, err)
-		os.Exit(2)
-	}
-	for i, it := range items {
-		rep.Compared++
-		if res[i] == it.goR {
-			continue
-		}
-		// shrink the disagreement against the model when it is a history
-		c := vh.Case{Kind: "disagreement", Op: it.line, Go: it.goR, Model: res[i], Detail: it.kind}
-		if ops, err := u.parseLine(it.line); err == nil && rep.Failures() < 20 {
-			d := vh.Driver{Path: *driver}
-			small := shrink(ops, func(cand []op) bool {
-				r, err := d.Run([]string{lineOf(cand)})
-				return err == nil && r[0] != strings.Join(u.runGo(cand, func(int) bool { return false }), "|")
-			})
-			if r, err := d.Run([]string{lineOf(small)}); err == nil {
-				if gr := strings.Join(u.runGo(small, func(int) bool { return false }), "|"); gr != r[0] {
-					c.Op, c.Go, c.Model = lineOf(small), gr, r[0]
-				}
-			}
-		}
-		rep.Add(c)
-	}
+	flush()
 	if rep.Cases == nil {
 		rep.Cases = []vh.Case{}
 	}
@@ -1416,7 +1436,7 @@ func (g *gen) matcherProbes(items *[]item) {
 
 // exhaustive: all histories of <= 4 Add/Delete operations over a 2x2x2x2 universe, each followed by
 // a HasQuad of every quad, a full iteration, and a fast-path iteration.
-func (g *gen) exhaustive(eval func(string, []op)) {
+func (g *gen) exhaustive(eval func(string, []op), depth int, how string) {
 	u := g.u
 	var qs []rquad
 	for _, s := range []*term{u.iris[0], u.bnodes[2]} {
@@ -1453,9 +1473,8 @@ func (g *gen) exhaustive(eval func(string, []op)) {
 			rec(append(prefix, o), depth-1)
 		}
 	}
-	depth := 3
 	rec(nil, depth)
-	g.rep.Exhaustive = append(g.rep.Exhaustive, fmt.Sprintf("all %d histories of <= %d AddQuad/DeleteQuad over a 2x2x2x2 universe (16 quads), each followed by HasQuad of all 16 quads, a full iteration and two fast-path iterations; compared with the reference set and with the model", count, depth))
+	g.rep.Exhaustive = append(g.rep.Exhaustive, fmt.Sprintf("all %d histories of <= %d AddQuad/DeleteQuad over a 2x2x2x2 universe (16 quads), each followed by HasQuad of all 16 quads, a full iteration and two fast-path iterations; %s", count, depth, how))
 }
 
 // corpus: hand-picked histories, always run first.
